@@ -23,14 +23,16 @@ var cmdAlike = map[string]string{"s": "\u017f", "\u017f": "s", "\u03bb\u03bf\u03
 var deepCommands bool
 
 type wgen struct {
-	r     *Rand
-	g     GenCfg
-	cast  []Principal
-	steps []WStep
-	now   int64 // planned clock, ns after the epoch
-	nd    int
-	ni    int
-	notes []string
+	aliasPlan bool
+	aux       []InvSpec // auxiliary invocations that must exist (and reach the executor) before the main one
+	r         *Rand
+	g         GenCfg
+	cast      []Principal
+	steps     []WStep
+	now       int64 // planned clock, ns after the epoch
+	nd        int
+	ni        int
+	notes     []string
 }
 
 func pickAlg(r *Rand, tier string) string {
@@ -882,6 +884,11 @@ func genWorld(r *Rand, cfg GenCfg) Plan {
 		}
 		g.issueDlg(d)
 	}
+	var auxLabels []string
+	for _, a := range g.aux {
+		g.issueInv(a)
+		auxLabels = append(auxLabels, a.Label)
+	}
 	g.issueInv(c.inv)
 	var vlabels []string
 	for _, v := range variants {
@@ -897,7 +904,7 @@ func genWorld(r *Rand, cfg GenCfg) Plan {
 			dl = append(dl, d.Label)
 		}
 	}
-	il := append([]string{c.inv.Label}, vlabels...)
+	il := append(append([]string{c.inv.Label}, vlabels...), auxLabels...)
 	mkCheck := func() *CheckSpec {
 		ck := &CheckSpec{Inv: c.inv.Label, Variants: vlabels}
 		if faulty && r.Chance(0.2) && len(c.inv.Prf) > 0 {
@@ -1058,6 +1065,24 @@ func genWorld(r *Rand, cfg GenCfg) Plan {
 		g.note("sibling:other-invoker")
 	}
 
+	// --- the attenuation-by-append plan (see deviateQ): full chain, chain ending at the parent, full
+	// chain again, all on the constructed delegation objects
+	if g.aliasPlan && len(c.dlgs) >= 3 {
+		n := len(c.dlgs)
+		inv2 := c.inv
+		inv2.Label = g.newInvLabel()
+		inv2.Iss = c.dlgs[n-2].Aud
+		inv2.Prf = nil
+		for k := n - 2; k >= 0; k-- {
+			inv2.Prf = append(inv2.Prf, c.dlgs[k].Label)
+		}
+		g.issueInv(inv2)
+		g.emit(WStep{Op: "ship", Ship: g.shipSpec(append(append([]string{}, dl...), append(append([]string{}, il...), inv2.Label)...), false)})
+		g.emit(WStep{Op: "check", Check: &CheckSpec{Inv: c.inv.Label, Prov: "dlg-built"}})
+		g.emit(WStep{Op: "check", Check: &CheckSpec{Inv: inv2.Label, Prov: "dlg-built"}})
+		g.emit(WStep{Op: "check", Check: &CheckSpec{Inv: c.inv.Label, Prov: "dlg-built"}})
+	}
+
 	// --- recovery: after the last fault everything is re-delivered fault-free
 	if faulty && r.Chance(0.6) {
 		g.emit(WStep{Op: "ship", Ship: g.shipSpec(append(append([]string{}, dl...), il...), false)})
@@ -1168,12 +1193,24 @@ func (g *wgen) deviateP(c, foreign *chain, notShipped map[string]bool) {
 	} else if k == n-1 {
 		pos = "leaf"
 	}
-	choice := r.Intn(14)
-	if len(c.inv.Prf) == 0 && choice >= 5 && choice <= 10 {
+	choice := r.Intn(15)
+	if len(c.inv.Prf) == 0 && ((choice >= 5 && choice <= 10) || choice == 14) {
 		g.note("P:empty")
 		return
 	}
 	switch choice {
+	case 14:
+		// a proof entry that names an INVOCATION (a token the store really holds, of the wrong
+		// type): in place of a link, or in addition to the links
+		aux := InvSpec{Label: g.newInvLabel(), Iss: c.inv.Iss, Sub: c.subject, Aud: -1, Cmd: c.inv.Cmd, NonceLen: 12}
+		g.aux = append(g.aux, aux)
+		i := r.Intn(len(c.inv.Prf))
+		if r.Chance(0.5) {
+			c.inv.Prf[i] = aux.Label
+		} else {
+			c.inv.Prf = append(c.inv.Prf[:i:i], append([]string{aux.Label}, c.inv.Prf[i:]...)...)
+		}
+		g.note("P:invocation-as-proof")
 	case 0:
 		c.dlgs[k].Aud = g.other(c.dlgs[k].Aud)
 		g.note("P:wrong-aud@" + pos)
@@ -1309,6 +1346,23 @@ func (g *wgen) deviateQ(c *chain) {
 	r := g.r
 	n := len(c.dlgs)
 	if n == 0 {
+		return
+	}
+	if n >= 3 && r.Chance(0.2) && !g.aliasPlan {
+		// attenuation by append on live tokens: the leaf's policy is the parent's policy plus one
+		// FALSE statement, in the parent's backing array (which has room); a link further up has at
+		// least one statement. The plan later checks the full chain, then the chain that ends at
+		// the parent, then the full chain again, on the constructed objects.
+		g.aliasPlan = true
+		c.dlgs[n-2].PolSpare, c.dlgs[n-2].PolFrom = true, ""
+		c.dlgs[n-1].PolFrom, c.dlgs[n-1].PolSpare = c.dlgs[n-2].Label, false
+		c.dlgs[n-1].Pol = append(append([]Stmt{}, c.dlgs[n-2].Pol...), genStmt(r, c.inv.Args, false, 0, true))
+		if len(c.dlgs[n-3].Pol) == 0 {
+			if st := genStmt(r, c.inv.Args, true, 0, true); st.Op != "nop" {
+				c.dlgs[n-3].Pol = []Stmt{st}
+			}
+		}
+		g.note("Q:false@leaf-appended-to-parent")
 		return
 	}
 	k := r.Intn(n)
